@@ -162,6 +162,8 @@ func init() {
 			fr.i.sched.race = n != 0
 		case "preempt":
 			fr.i.sched.maxPreempt = n
+		case "recursion-is-violation":
+			fr.i.depthIsViolation = n != 0
 		default:
 			panic(pathAbort{"engine", "verif.Opt: unknown option " + name})
 		}
@@ -186,6 +188,23 @@ func init() {
 	})
 	v("Plain", func(fr *frame, args []value) value {
 		return fr.plain(args[0], map[any]bool{}, 0, "$")
+	})
+	v("MySQLScan", func(fr *frame, args []value) value {
+		run := func(sql string) value {
+			class, typ, start, end, val := nativeMySQLScan(sql)
+			ints := func(xs []int) value {
+				out := make([]value, len(xs))
+				for i, x := range xs {
+					out[i] = x
+				}
+				return out
+			}
+			return tuple{ints(class), ints(typ), ints(start), ints(end), strSlice(val)}
+		}
+		if s, ok := args[0].(string); ok {
+			return run(s)
+		}
+		return fr.concretiseStringCall(fr.i.ex.flatten(args[0]), run)
 	})
 	v("Concrete", func(fr *frame, args []value) value {
 		// concretise an int (decision over feasible values)
